@@ -15,6 +15,7 @@ Created on 12 Feb 2023
 import socket
 from io import BytesIO
 from logging import getLogger
+from sys import maxsize
 from zlib import MAX_WBITS, decompress
 from zlib import error as zlibError
 
@@ -159,6 +160,8 @@ class SocketWrapper:
                 break
             try:
                 chunk_length = int(length_bytes.strip(), 16)
+                if not 0 <= chunk_length <= maxsize:  # cannot be a chunk size
+                    raise ValueError(f"invalid chunk length {chunk_length}")
             except ValueError:
                 # residual bytes at beginning of stream
                 break
